@@ -32,7 +32,8 @@ for sid in ids:
                 out['pins'] = out['noboost']
                 break
         results[sid] = dict(property=pid, applied=True, demo_exit_on_mutant=demo.returncode, check=out,
-                            detected=bool(out['pins']['exit'] != 0), detected_without_pin_boost=bool(out['noboost']['exit'] != 0))
+                            detected=bool(out['pins']['exit'] == 1 and any(l.startswith('VIOLATION property=%s ' % pid) for l in out['pins']['lines'])),
+                            detected_without_pin_boost=bool(out['noboost']['exit'] == 1 and any(l.startswith('VIOLATION property=%s ' % pid) for l in out['noboost']['lines'])))
         print(sid, 'detected' if results[sid]['detected'] else 'MISSED', '(without pin boost: %s)' % results[sid]['detected_without_pin_boost'],
               out['pins']['lines'][:1])
     finally:
